@@ -215,14 +215,14 @@ func (m *Manip) Empty() bool {
 
 // CertCfg is a certificate configuration file.
 type CertCfg struct {
-	Path       string    `json:"path"` // file path inside the directory, e.g. "sub/leaf.yaml"
-	Alias      string    `json:"alias,omitempty"`
-	Subject    string    `json:"subject"`
-	Issuer     string    `json:"issuer,omitempty"`
-	Profile    string    `json:"profile,omitempty"`
-	Serial     *int64    `json:"serial,omitempty"`
+	Path    string `json:"path"` // file path inside the directory, e.g. "sub/leaf.yaml"
+	Alias   string `json:"alias,omitempty"`
+	Subject string `json:"subject"`
+	Issuer  string `json:"issuer,omitempty"`
+	Profile string `json:"profile,omitempty"`
+	Serial  *int64 `json:"serial,omitempty"`
 	// SerialText: the serialNumber written as this decimal text (numbers an int64 cannot hold); the reference does not model it
-	SerialText string `json:"serialText,omitempty"`
+	SerialText string    `json:"serialText,omitempty"`
 	IssuerUID  *Raw      `json:"issuerUid,omitempty"`
 	SubjectUID *Raw      `json:"subjectUid,omitempty"`
 	KeyAlg     string    `json:"keyAlg,omitempty"`
